@@ -38,7 +38,15 @@ def _vals(ctx, spec):
         for key, val in zip(p.keys, (zero, a, zero)):
             p.values[key] = val
         return arr, p
-    return arr, numpoly.ndpoly.from_attributes([[2], [0]], [zero, a], names=("q0",), retain_coefficients=True)
+    if rep == 2:
+        return arr, numpoly.ndpoly.from_attributes([[2], [0]], [zero, a], names=("q0",), retain_coefficients=True)
+    # rep 3: retained zero terms whose exponent rows sit on packing boundaries (a unit in the leading indeterminate next to
+    # 2**16-1 in the last one: any scheme that ranks a row as one machine word wraps exactly there), constant term last
+    rows = [[1, 0, 0], [0, 0, 65535], [0, 1, 255], [0, 0, 0]]
+    p = numpoly.ndpoly(exponents=rows, shape=a.shape, names=("q0", "q1", "q2"), dtype=a.dtype if a.dtype != object else object)
+    for key, val in zip(p.keys, (zero, zero, zero, a)):
+        p.values[key] = val
+    return arr, p
 
 
 def _ax(a):
@@ -219,7 +227,7 @@ def gen_cases(tier: str, seed: int) -> List[Dict]:
             else:
                 slots.append(rng.choice([0, 1, -1, 2, -3, 5]))
         # representation of the constant polynomial built from the array (see _vals): tidy, raw with zero terms around, retained
-        sp = {"kind": "array", "shape": list(shape), "slots": slots, "repr": rng.choice([0, 0, 1, 2])}
+        sp = {"kind": "array", "shape": list(shape), "slots": slots, "repr": rng.choice([0, 0, 1, 2, 3])}
         if len(shape) >= 2 and rng.random() < 0.5:
             sp["layout"] = rng.choice(["F", "strided", "readonly"])  # the memory layout of the numeric operand is not part of its value
         return sp
